@@ -23,8 +23,14 @@ pub fn check(c: &Case) -> CheckResult {
         return Ok(Pass::new(false).class("outside-domain")); // whole seconds do not fit 32 bits
     }
     let name = if c.unit == 1000 { "from_ms" } else { "from_us" };
-    let ts = guard(|| if c.unit == 1000 { DltTimeStamp::from_ms(c.x) } else { DltTimeStamp::from_us(c.x) })
-        .map_err(|p| Violation::from_panic(&format!("DltTimeStamp::{}({})", name, c.x), &p))?;
+    let ts = guard(|| {
+        if c.unit == 1000 {
+            DltTimeStamp::from_ms(c.x)
+        } else {
+            DltTimeStamp::from_us(c.x)
+        }
+    })
+    .map_err(|p| Violation::from_panic(&format!("DltTimeStamp::{}({})", name, c.x), &p))?;
     let got = ts.seconds as u128 * 1_000_000 + ts.microseconds as u128;
     let want = c.x as u128 * (1_000_000 / c.unit) as u128;
     if got != want {
@@ -35,7 +41,13 @@ pub fn check(c: &Case) -> CheckResult {
         ));
     }
     if ts.microseconds >= 1_000_000 {
-        return Err(viol!(format!("{}:micros-range", name), "DltTimeStamp::{}({}) has microseconds {} >= 1000000", name, c.x, ts.microseconds));
+        return Err(viol!(
+            format!("{}:micros-range", name),
+            "DltTimeStamp::{}({}) has microseconds {} >= 1000000",
+            name,
+            c.x,
+            ts.microseconds
+        ));
     }
     let sub = c.x % c.unit != 0;
     let secs = c.x / c.unit != 0;
@@ -48,16 +60,50 @@ pub fn check(c: &Case) -> CheckResult {
 
 fn boundaries(unit: u64) -> Vec<u64> {
     let max = (1u64 << 32) * unit - 1;
-    let mut v = vec![0, 1, 2, 999, 1000, 1001, 999_999, 1_000_000, 1_000_001, 1_500_000, 1_000_005, max, max - 1, max - unit, max - unit + 1];
+    let mut v = vec![
+        0,
+        1,
+        2,
+        999,
+        1000,
+        1001,
+        999_999,
+        1_000_000,
+        1_000_001,
+        1_500_000,
+        1_000_005,
+        max,
+        max - 1,
+        max - unit,
+        max - unit + 1,
+    ];
     for k in 0..64 {
         let p = 1u64 << k;
         for d in [p.wrapping_sub(1), p, p.wrapping_add(1)] {
             v.push(d);
         }
     }
-    for m in [1u64, 2, 3, 7, 59, 60, 3600, 86_400, 4_294_967_295, 4_294_967_294, 2_147_483_648] {
+    for m in [
+        1u64,
+        2,
+        3,
+        7,
+        59,
+        60,
+        3600,
+        86_400,
+        4_294_967_295,
+        4_294_967_294,
+        2_147_483_648,
+    ] {
         if let Some(b) = m.checked_mul(unit) {
-            for d in [b.wrapping_sub(1), b, b.wrapping_add(1), b.wrapping_add(unit - 1), b.wrapping_add(unit / 2)] {
+            for d in [
+                b.wrapping_sub(1),
+                b,
+                b.wrapping_add(1),
+                b.wrapping_add(unit - 1),
+                b.wrapping_add(unit / 2),
+            ] {
                 v.push(d);
             }
         }
@@ -109,17 +155,37 @@ fn history_block(b: u64) -> BlockReport {
         // zig-zag around the boundary
         for (i, d) in [250u64, 900, 50, 999, 1, 500, 998, 2].iter().enumerate() {
             let off = d * unit / 1000;
-            let x = if i % 2 == 0 { base_s * unit + off } else { base_s * unit - off.max(1) };
+            let x = if i % 2 == 0 {
+                base_s * unit + off
+            } else {
+                base_s * unit - off.max(1)
+            };
             judge(unit, x, &mut rep);
         }
     }
     // a message is stamped (also with a hand-built, un-normalised time stamp and with the wall clock) between the calls
     {
         use dlt_core::dlt::{Endianness, Message, MessageConfig, PayloadContent};
-        let conf = MessageConfig { version: 1, counter: 0, endianness: Endianness::Little, ecu_id: None, session_id: None, timestamp: None, payload: PayloadContent::NonVerbose(1, vec![2, 3]), extended_header_info: None };
+        let conf = MessageConfig {
+            version: 1,
+            counter: 0,
+            endianness: Endianness::Little,
+            ecu_id: None,
+            session_id: None,
+            timestamp: None,
+            payload: PayloadContent::NonVerbose(1, vec![2, 3]),
+            extended_header_info: None,
+        };
         for (s, us) in [(base_s - 1, 1_000_000u32), (base_s, 999_999), (base_s, 0)] {
             let m = Message::new(conf.clone(), None);
-            let stamped = guard(|| m.add_storage_header(Some(DltTimeStamp { seconds: s as u32, microseconds: us })).as_bytes().len());
+            let stamped = guard(|| {
+                m.add_storage_header(Some(DltTimeStamp {
+                    seconds: s as u32,
+                    microseconds: us,
+                }))
+                .as_bytes()
+                .len()
+            });
             std::hint::black_box(stamped.ok());
             judge(1000, base_s * 1000 + 250, &mut rep);
             judge(1_000_000, base_s * 1_000_000 + 250_000, &mut rep);
@@ -129,6 +195,31 @@ fn history_block(b: u64) -> BlockReport {
         std::hint::black_box(guard(|| m.add_storage_header(None).as_bytes().len()).ok());
         judge(1000, base_s * 1000 + 251, &mut rep);
     }
+    // several independent clocks interleaved on one thread: clock A advances in sub-second steps across second
+    // boundaries (forward, then backward) while unrelated instants B and C are converted between its steps
+    let far = crate::util::splitmix64(0xC17F ^ b) % ((1u64 << 32) - 8) + 4;
+    for unit in [1000u64, 1_000_000] {
+        let a0 = base_s * unit - unit / 2;
+        for k in 0..9u64 {
+            judge(unit, a0 + k * (unit * 3 / 10), &mut rep);
+            judge(unit, far * unit + unit / 7 + k, &mut rep);
+            if k % 3 == 2 {
+                judge(
+                    unit,
+                    (far ^ 0x5555) % ((1u64 << 32) - 1) * unit + unit - 1,
+                    &mut rep,
+                );
+            }
+        }
+        for k in 0..9u64 {
+            judge(
+                unit,
+                a0 + 8 * (unit * 3 / 10) - k * (unit * 3 / 10),
+                &mut rep,
+            );
+            judge(unit, (far + 3) * unit + k, &mut rep);
+        }
+    }
     // both constructors alternately about instants less than a second apart
     let ms = base_s * 1000 - 100;
     for k in 0..12u64 {
@@ -137,8 +228,120 @@ fn history_block(b: u64) -> BlockReport {
         judge(1_000_000, (ms + k * 35) * 1000 - 350_000 - k, &mut rep);
     }
     if b == 5 {
-        rep.sample = Some(json!({"around second": base_s, "histories": "descending walk, zig-zag, alternating from_ms/from_us"}));
+        rep.sample = Some(
+            json!({"around second": base_s, "histories": "descending walk, zig-zag, alternating from_ms/from_us"}),
+        );
     }
+    rep
+}
+
+/// Conversions made while a thread winds down (from the destructor of a thread-local object, as a per-thread log sink
+/// that stamps a closing record would do), for the three possible histories of that thread: the object was registered
+/// before the thread's first conversion, after it, or the thread never converted anything before.
+struct TeardownProbe {
+    tx: std::sync::mpsc::Sender<(Case, Option<String>)>,
+    calls: Vec<Case>,
+}
+impl Drop for TeardownProbe {
+    fn drop(&mut self) {
+        crate::util::install_panic_hook();
+        for c in &self.calls {
+            let r = std::panic::catch_unwind(|| {
+                if c.unit == 1000 {
+                    DltTimeStamp::from_ms(c.x)
+                } else {
+                    DltTimeStamp::from_us(c.x)
+                }
+            });
+            let verdict = match r {
+                Ok(ts) => {
+                    let got = ts.seconds as u128 * 1_000_000 + ts.microseconds as u128;
+                    let want = c.x as u128 * (1_000_000 / c.unit) as u128;
+                    (got != want || ts.microseconds >= 1_000_000).then(|| {
+                        format!(
+                            "= {{seconds: {}, microseconds: {}}}",
+                            ts.seconds, ts.microseconds
+                        )
+                    })
+                }
+                Err(p) => Some(format!(
+                    "panicked: {}",
+                    p.downcast_ref::<String>()
+                        .cloned()
+                        .or_else(|| p.downcast_ref::<&str>().map(|s| s.to_string()))
+                        .unwrap_or_default()
+                )),
+            };
+            let _ = self.tx.send((c.clone(), verdict));
+        }
+    }
+}
+thread_local! {
+    static PROBE: std::cell::RefCell<Option<TeardownProbe>> = const { std::cell::RefCell::new(None) };
+}
+fn teardown_block(b: u64) -> BlockReport {
+    let mut rep = BlockReport::default();
+    let s = crate::util::splitmix64(0x7EA2 ^ b) % ((1u64 << 32) - 4) + 2;
+    for order in 0..3u8 {
+        let (tx, rx) = std::sync::mpsc::channel();
+        let calls = vec![
+            Case {
+                unit: 1000,
+                x: s * 1000 + 250,
+            },
+            Case {
+                unit: 1_000_000,
+                x: s * 1_000_000 + 250_000,
+            },
+            Case {
+                unit: 1000,
+                x: (s + 1) * 1000 + 1,
+            },
+        ];
+        let h = std::thread::spawn(move || {
+            let before = |x: u64| {
+                std::hint::black_box(
+                    guard(|| {
+                        (
+                            DltTimeStamp::from_ms(x * 1000 + 7),
+                            DltTimeStamp::from_us(x * 1_000_000 + 7),
+                        )
+                    })
+                    .ok(),
+                );
+            };
+            if order == 1 {
+                before(s);
+            }
+            PROBE.with(|p| *p.borrow_mut() = Some(TeardownProbe { tx, calls }));
+            if order == 0 {
+                before(s);
+            }
+        });
+        let _ = h.join();
+        for (c, verdict) in rx.try_iter() {
+            rep.evaluations += 1;
+            match verdict {
+                None => rep.nontrivial += 1,
+                Some(what) => {
+                    if rep.violation.is_none() {
+                        let name = if c.unit == 1000 { "from_ms" } else { "from_us" };
+                        let hist = [
+                            "probe registered before the thread's first conversion",
+                            "probe registered after the thread's first conversion",
+                            "no earlier conversion on the thread",
+                        ][order as usize];
+                        rep.violation = Some((
+                            json!({"teardown_block": b, "failing_call": c}),
+                            viol!(format!("{}:during-thread-teardown", name), "DltTimeStamp::{}({}) called from a thread-local destructor while the thread winds down ({}) {}", name, c.x, hist, what),
+                        ));
+                    }
+                }
+            }
+        }
+    }
+    rep.classes
+        .push(("conversion-during-thread-teardown", rep.evaluations));
     rep
 }
 
@@ -146,7 +349,7 @@ pub fn run(run: &Run) {
     run.rule(
         "cases = (constructor, u64 input with input/unit-per-second < 2^32): enumerated boundaries (0, unit multiples +-1, powers of two +-1, \
          largest admissible values); the first and last 8 sub-second values of 1.2 M whole-second counts; 65536 inputs on either side of every \
-         multiple (x1..x130) of every power of two 2^24..2^52; every input below 2^26 (thorough: from_ms below 2^37, from_us below 2^36); call histories on one thread (descending walks, zig-zag around second boundaries, both constructors alternately); then uniform / log-uniform / (seconds, remainder) random inputs; non-trivial = sub-second part != 0 and \
+         multiple (x1..x130) of every power of two 2^24..2^52; every input below 2^26 (thorough: from_ms below 2^37, from_us below 2^36); call histories on one thread (descending walks, zig-zag around second boundaries, both constructors alternately, two or three unrelated clocks interleaved, message stamping in between); conversions made from a thread-local destructor while a thread winds down (three registration orders); then uniform / log-uniform / (seconds, remainder) random inputs; non-trivial = sub-second part != 0 and \
          whole seconds != 0; distinct by (constructor, input)",
     );
     run.assume("oracle: seconds*10^6 + microseconds == input expressed in microseconds, computed in u128; overflow checks are on in the build");
@@ -160,7 +363,10 @@ pub fn run(run: &Run) {
     let all = &all;
     run.enumerate("boundaries", all.len() as u64, false, |i| {
         let c = &all[i as usize];
-        let mut r = BlockReport { evaluations: 1, ..Default::default() };
+        let mut r = BlockReport {
+            evaluations: 1,
+            ..Default::default()
+        };
         match check(c) {
             Ok(p) => {
                 r.nontrivial = p.nontrivial as u64;
@@ -186,8 +392,13 @@ pub fn run(run: &Run) {
             let mut good = true;
             let mut x = from;
             loop {
-                let ts = if unit == 1000 { DltTimeStamp::from_ms(x) } else { DltTimeStamp::from_us(x) };
-                good &= ts.seconds as u64 * 1_000_000 + ts.microseconds as u64 == x * factor && ts.microseconds < 1_000_000;
+                let ts = if unit == 1000 {
+                    DltTimeStamp::from_ms(x)
+                } else {
+                    DltTimeStamp::from_us(x)
+                };
+                good &= ts.seconds as u64 * 1_000_000 + ts.microseconds as u64 == x * factor
+                    && ts.microseconds < 1_000_000;
                 if x == to {
                     break;
                 }
@@ -241,7 +452,9 @@ pub fn run(run: &Run) {
             }
         }
         if b == 11 {
-            rep.sample = Some(json!({"unit": unit, "centre": format!("{} * 2^{}", k, p), "range": "+-65536"}));
+            rep.sample = Some(
+                json!({"unit": unit, "centre": format!("{} * 2^{}", k, p), "range": "+-65536"}),
+            );
         }
         rep
     });
@@ -255,7 +468,8 @@ pub fn run(run: &Run) {
         let mut rep = BlockReport::default();
         sweep(1000, b * block, (b + 1) * block - 1, &mut rep);
         if b == 0 {
-            rep.sample = Some(json!({"unit": 1000, "range": format!("{}..{}", b * block, (b + 1) * block)}));
+            rep.sample =
+                Some(json!({"unit": 1000, "range": format!("{}..{}", b * block, (b + 1) * block)}));
         }
         rep
     });
@@ -268,7 +482,15 @@ pub fn run(run: &Run) {
     //     asked before — descending dense walks across second boundaries, zig-zag walks with steps below one second,
     //     and both constructors asked alternately about neighbouring instants
     run.enumerate("call-histories", 4096, false, history_block);
-    run.random("random", run.cases(2_000_000, 40_000_000), 0.5, strategy, check);
+    // (5) conversions made from a thread-local destructor while a thread winds down ("building it never panics")
+    run.enumerate("thread-teardown", 48, false, teardown_block);
+    run.random(
+        "random",
+        run.cases(2_000_000, 40_000_000),
+        0.5,
+        strategy,
+        check,
+    );
 }
 
 pub fn replay(section: &str, case: &Value) -> Option<CheckResult> {
@@ -279,6 +501,13 @@ pub fn replay(section: &str, case: &Value) -> Option<CheckResult> {
         return Some(match rep.violation {
             Some((_, v)) => Err(v),
             None => Ok(Pass::new(true).class("call-history")),
+        });
+    }
+    if section == "thread-teardown" {
+        let rep = teardown_block(case["teardown_block"].as_u64()?);
+        return Some(match rep.violation {
+            Some((_, v)) => Err(v),
+            None => Ok(Pass::new(true).class("thread-teardown")),
         });
     }
     case_from::<Case>(case).map(|c| check(&c))
